@@ -155,7 +155,8 @@ def r3(c):
         c.check("C06.R3", ok, repo.loc(m, r), "_select_match/global-inheritance",
                 "the returned children rules do not (on every path) include the inherited rules['global']: a %global rule would stop covering the subtree",
                 key_text="global-inherit")
-    lg = repo.func(PATCHING, "_rules_local_global")
+    from sa.canon import unroll_literal_loops
+    lg = unroll_literal_loops(repo.func(PATCHING, "_rules_local_global"))
     c.count("functions")
     loops = [st for st in lg.body if isinstance(st, ast.For)]
     srcs = []
@@ -171,29 +172,78 @@ def r3(c):
             srcs.append((it.func.value.slice.value, flag, bool(cond)))
     ok = srcs == [("local", False, False), ("global", True, False)]
     c.check("C06.R3", ok, repo.loc(m, lg), "_rules_local_global", f"expected all local rules (is_global=False) then all global rules (True), unfiltered; found {srcs}", key_text="local-global")
-    # _compile_acl
+    # _compile_acl: enumerate the paths through one iteration of the loop over the merged rows
+    from sa import symexec
     am = repo.module(ACL)
     ca = repo.func(ACL, "_compile_acl")
     c.count("functions")
-    gma = GuardMap(ca)
+    loops = [n for n in ca.body if isinstance(n, ast.For) and isinstance(n.target, ast.Tuple) and len(n.target.elts) == 2]
+    if len(loops) != 1:
+        raise AnchorError("_compile_acl: loop over the merged rows not found")
+    loop = loops[0]
+    idv, av = loop.target.elts[0].id, loop.target.elts[1].id
+    rets = [n for n in walk_no_nested(ca) if isinstance(n, ast.Return) and n.value is not None]
+    pvc = Provenance(ca)
+    rv = pvc.resolve_alias(rets[-1].value) if rets else None
+    if isinstance(rv, ast.Name):
+        inits = [d.value for d in pvc.rd.defs(rv) if d.kind == "assign" and d.value is not None]
+        rv = inits[0] if len(inits) == 1 else rv
+    if not isinstance(rv, ast.Dict):
+        raise AnchorError("_compile_acl: the returned {'local': ..., 'global': ...} mapping not found")
+    keyed = {k.value: norm(v) for k, v in zip(rv.keys, rv.values) if isinstance(k, ast.Constant)}
+    holder = norm(rets[-1].value) if isinstance(rets[-1].value, ast.Name) else None
+
+    def ren(s_):
+        s_ = s_.replace('"', "'")
+        return {f"{av}['params']['global']": "global", f"{av}['type'] == 'ignore'": "ignore", f"'ignore' == {av}['type']": "ignore"}.get(s_, s_)
+    env = G.GuardEnv(rename=ren)
+    ok_children, ok_filing, nfiled = True, True, 0
+    for p_ in symexec.paths(loop.body):
+        if any(k == "raise" for k, _, _ in p_.events):
+            continue
+        f = G.And(*[(G.formula(t, env) if pol else G.Not(G.formula(t, env))) for t, pol in p_.conds])
+        if not G.satisfiable(f):
+            continue
+        filed = []
+        for kind, orig, sub in p_.events:
+            if kind == "call" and call_name(orig) == "_compile_acl":
+                if not G.implies(f, G.Not(G.Atom("global"))):
+                    ok_children = False
+            if kind == "store" and isinstance(sub.targets[0], ast.Subscript) and norm(sub.targets[0].slice) == idv:
+                tgt = sub.targets[0].value
+                # rules['global'][id] / rules['global' if g else 'local'][id] / global_rules[id]
+                if isinstance(tgt, ast.Subscript) and holder and norm(tgt.value) == holder:
+                    sel = tgt.slice
+                    if isinstance(sel, ast.Constant):
+                        filed.append((sel.value, f))
+                    elif isinstance(sel, ast.IfExp) and isinstance(sel.body, ast.Constant) and isinstance(sel.orelse, ast.Constant):
+                        t_ = G.formula(sel.test, env)
+                        filed.append((sel.body.value, G.And(f, t_)))
+                        filed.append((sel.orelse.value, G.And(f, G.Not(t_))))
+                    else:
+                        ok_filing = False
+                elif isinstance(tgt, ast.Name):
+                    ks = [k for k, v in keyed.items() if v == tgt.id]
+                    if len(ks) == 1:
+                        filed.append((ks[0], f))
+                    else:
+                        ok_filing = False
+        if not filed:
+            ok_filing = False
+        for where, ff in filed:
+            if not G.satisfiable(ff):
+                continue
+            nfiled += 1
+            if where == "global" and not G.implies(ff, G.Atom("global")):
+                ok_filing = False
+            if where == "local" and not G.implies(ff, G.Not(G.Atom("global"))):
+                ok_filing = False
+            if where not in ("global", "local"):
+                ok_filing = False
     rec = [x for x in calls_in(ca) if call_name(x) == "_compile_acl"]
-    ok = False
-    if len(rec) == 1:
-        def ren(s):
-            s = s.replace('"', "'")
-            return {"attrs['params']['global']": "global", "attrs['type'] == 'ignore'": "ignore", "'ignore' == attrs['type']": "ignore"}.get(s, s)
-        f = gma.formula(rec[0], G.GuardEnv(rename=ren))
-        ok = G.implies(f, G.Not(G.Atom("global")))
-    c.check("C06.R3", ok, repo.loc(am, rec[0] if rec else ca), "_compile_acl/children", "children of a %global rule are compiled (or the recursion is missing): its subtree must be governed by inheritance",
+    c.check("C06.R3", ok_children and len(rec) >= 1, repo.loc(am, rec[0] if rec else ca), "_compile_acl/children", "children of a %global rule are compiled (or the recursion is missing): its subtree must be governed by inheritance",
             key_text="compile-children")
-    st_ok = False
-    for n in walk_no_nested(ca):
-        if isinstance(n, ast.Assign) and isinstance(n.targets[0], ast.Subscript) and isinstance(n.targets[0].value, ast.Subscript):
-            sel = n.targets[0].value.slice
-            if isinstance(sel, ast.IfExp) and norm(sel.test).replace('"', "'") == "attrs['params']['global']" and \
-                    isinstance(sel.body, ast.Constant) and sel.body.value == "global" and isinstance(sel.orelse, ast.Constant) and sel.orelse.value == "local":
-                st_ok = True
-    c.check("C06.R3", st_ok, repo.loc(am, ca), "_compile_acl/filing", "rules are not filed under 'global' iff their %global flag is set", key_text="filing")
+    c.check("C06.R3", ok_filing and nfiled >= 2, repo.loc(am, ca), "_compile_acl/filing", "rules are not filed under 'global' iff their %global flag is set", key_text="filing")
 
 
 def r4(c):
@@ -301,13 +351,19 @@ def r6(c):
                 "this path are assembled by hand, without the inherited rules['global'] / the union of the local rules of all equal matches", key_text="return-select")
     fa = repo.func(PATCHING, "_find_acl_matches")
     gm = GuardMap(fa)
-    apps = [x for x in calls_in(fa) if isinstance(x.func, ast.Attribute) and x.func.attr == "append"
-            and any(any(isinstance(y, ast.Call) and call_name(y) == "_rules_local_global" for y in ast.walk(l.iter)) for l in gm.in_loop(x) if isinstance(l, ast.For))]
+    pva = Provenance(fa)
+
+    def over_rules(l):
+        return any("_rules_local_global" in b for b in pva.iteration_bases(l.iter)[0])
+    sorted_lists = {norm(x.func.value) for x in calls_in(fa) if isinstance(x.func, ast.Attribute) and x.func.attr == "sort"} | \
+        {norm(pva.resolve_alias(x.args[0])) for x in calls_in(fa) if call_name(x) == "sorted" and x.args}
+    apps = [x for x in calls_in(fa) if isinstance(x.func, ast.Attribute) and x.func.attr == "append" and any(over_rules(l) for l in gm.in_loop(x) if isinstance(l, ast.For))
+            and (not sorted_lists or norm(x.func.value) in sorted_lists)]
     if len(apps) != 1:
         raise AnchorError("_find_acl_matches: collection of the candidates not found")
     loops = [l for l in gm.in_loop(apps[0]) if isinstance(l, ast.For)]
     kinds = [i for i, l in enumerate(loops) if isinstance(l.iter, (ast.List, ast.Tuple)) and [getattr(e, "value", None) for e in l.iter.elts] == ["direct_regexp", "reverse_regexp"]]
-    ruleloops = [i for i, l in enumerate(loops) if any(isinstance(x, ast.Call) and call_name(x) == "_rules_local_global" for x in ast.walk(l.iter))]
+    ruleloops = [i for i, l in enumerate(loops) if over_rules(l)]
     # a sort key that itself separates direct from reverse matches makes the collection order irrelevant
     sorts = [x for x in calls_in(fa) if isinstance(x.func, ast.Attribute) and x.func.attr == "sort" or call_name(x) == "sorted"]
     if not kinds or not ruleloops:
